@@ -1,10 +1,10 @@
-"""C06 - slices partition the contraction exactly and are reassembled correctly."""
-from ..common import Report
-from .. import t1
+"""C06 driver (see DESIGN.md section 3, C06)."""
+from .generic import run_property, replay_property
 
 
 def run(tier):
-    rep = Report("C06", tier, level="other")
-    rep.explanation = "under construction"
-    t1.run_t1(rep, ["vt.contracts.core_slicing"], pid="C06", quick=(tier == "quick"))
-    return rep.finish()
+    return run_property("C06", tier)
+
+
+def replay(path):
+    return replay_property("C06", path)
